@@ -391,3 +391,6 @@ def run(eng: Engine, ck: Check):
     snd = [c for c in calls_in(gus.node) if call_name(c) == 'Request' and 'AcceptChildren' in unparse(c.func)]
     ok = len(snd) == 1 and unparse(snd[0].args[0]) == 'self._accept_children'
     ck.ob('R-C13-LIMITS', gus, gus.node, 'the server is told AcceptChildren with the stored flag', ok, '', construct='accept children sent')
+    from . import defs as _d13
+    _d13.presence_truthiness(eng, ck, 'R-C13-PARENT', [('DistributedPeer', DIST), ('PeerConnection', CONN)], '`if self.parent`, `if not peer.connection` decide whether there is a parent / a live connection')
+    _d13.identity_semantics(eng, ck, 'R-C13-ADMIT', [('PeerConnection', CONN)], 'get_distributed_peer and the child list compare connections; two connections of one user are different connections')
